@@ -189,10 +189,12 @@ class Reader:
         self.close()
 
     def __getitem__(self, item):
-        if isinstance(item, int) or isinstance(item, slice):
-            return self.read(nsel=item, sync=False)
-        elif len(item) == 2:
+        if isinstance(item, tuple):
+            if len(item) != 2:
+                raise IndexError("too many indices: a Reader has 2 dimensions (samples, channels)")
             return self.read(nsel=item[0], csel=item[1], sync=False)
+        # a single selector (int, slice, list or array of sample indices) addresses samples, as for a 2d array
+        return self.read(nsel=item, sync=False)
 
     @property
     def sample2volts(self):
